@@ -22,7 +22,7 @@ structure EntFacts (fmt : P.Fmt) (s : Array Nat) (pe : PEnt) : Prop where
   val_in : pe.junk = false → C01.ValInsideFor fmt pe.entry
   key_str : fmt ≠ .po → ∃ t, pe.key = .str t
 
-theorem mkEnt_facts (f : P.Fmt) (s : Array Nat) (h : Hist.Ent) (pe : PEnt) (hmk : mkEnt f s h = .ok pe) :
+theorem mkEnt_facts (ext : Ext) (f : P.Fmt) (s : Array Nat) (h : Hist.Ent) (pe : PEnt) (hmk : mkEnt ext f s h = .ok pe) :
     pe.entry = h.entry ∧ pe.junk = h.jid.isSome ∧
     (h.jid.isSome = true → pe.all = P.slice s h.entry.s h.entry.e ∧ pe.val = P.slice s h.entry.s h.entry.e) ∧
     (h.jid.isSome = false → pe.all = P.Entry.all s h.entry ∧ pe.raw = P.pySlice s h.entry.vs h.entry.ve) := by
@@ -31,7 +31,7 @@ theorem mkEnt_facts (f : P.Fmt) (s : Array Nat) (h : Hist.Ent) (pe : PEnt) (hmk 
   | some id =>
     simp only [hj] at hmk
     cases hmk
-    simp
+    simp [mkJunk]
   | none =>
     simp only [hj] at hmk
     split at hmk
@@ -54,9 +54,10 @@ theorem mkEnt_facts (f : P.Fmt) (s : Array Nat) (h : Hist.Ent) (pe : PEnt) (hmk 
             · cases hv; rfl
             · cases hv
 
-/-- **the parse stage**: every localizable entry `parseFile` returns (ini, inc, po, properties) has the facts -/
-theorem parseFile_facts (fmt : P.Fmt) (hf : fmt ≠ .dtd) (s : Array Nat) (junkid : Nat) (ents : List PEnt) (n : Nat)
-    (hp : parseFile fmt s junkid = .ok (ents, n)) : ∀ pe ∈ ents, EntFacts fmt s pe := by
+/-- **the parse stage**: every localizable entry `parseFile` returns (ini, inc, po, properties) has the facts, whatever
+    the external functions `ext` are (these four formats never consult them) -/
+theorem parseFile_facts (ext : Ext) (fmt : P.Fmt) (hf : fmt ≠ .dtd) (s : Array Nat) (junkid : Nat) (ents : List PEnt) (n : Nat)
+    (hp : parseFile ext fmt s junkid = .ok (ents, n)) : ∀ pe ∈ ents, EntFacts fmt s pe := by
   unfold parseFile at hp
   cases hw : P.walk fmt s with
   | stuck o es => rw [hw] at hp; cases hp
@@ -73,7 +74,7 @@ theorem parseFile_facts (fmt : P.Fmt) (hf : fmt ≠ .dtd) (s : Array Nat) (junki
       obtain ⟨hmem, hloc⟩ := hh
       have hentry : h.entry ∈ es := assign_entry_mem fmt s 0 es junkid 0 h hmem
       have hwf := Hist.assign_wf fmt s 0 es junkid 0 h hmem
-      obtain ⟨he, hjunk, hJ, hE⟩ := mkEnt_facts fmt s h pe hmk
+      obtain ⟨he, hjunk, hJ, hE⟩ := mkEnt_facts ext fmt s h pe hmk
       have hshape := walk_shape fmt hf s es hw h.entry hentry
       have htiles : ∃ b, P.Tiles s.size b 0 es := by
         cases fmt
@@ -122,10 +123,9 @@ theorem parseFile_facts (fmt : P.Fmt) (hf : fmt ≠ .dtd) (s : Array Nat) (junki
         · rw [hj] at hpj; cases hpj
         · rw [he]; exact C01.val_inside_fmt fmt s es hw h.entry hentry hk
       · intro hpo
-        have hcov : covered fmt = true := by cases fmt <;> first | rfl | exact absurd rfl hf
-        obtain ⟨pe', hpe', hwf'⟩ := mkEnt_ok fmt hcov s h hwf hloc (fun hfpo => absurd hfpo hpo)
+        obtain ⟨pe', hpe', hwf'⟩ := mkEnt_ok ext fmt s h hwf hloc (fun hfpo => absurd hfpo hpo)
         rw [hmk] at hpe'
         cases hpe'
-        exact hwf'.2 hpo
+        exact hwf'.2.1 hpo
 
 end C17P
